@@ -19,6 +19,15 @@
 //! intermediate quantities that cancel inside the library's formulas).  Points where the
 //! rounding term alone exceeds the level of judgement (1e-8; 1e-7 beyond 80 degrees) are
 //! counted as `skipped_noise_dominated`, never judged.
+//! Presentation of longitudes (sections `presentation*`): the claims are statements about geographic
+//! points, and a point may be handed to the library with any raw longitude. Every claim above is
+//! re-judged with the stencils presented as computed from the central meridian, reduced to
+//! [-180,180) / (-180,180] / [0,360), and 0, +-1, +-2, +-3 whole turns away (all 13 stencil points
+//! moved alike by n·2·pi rounded to the lattice of the abscissae, so that differences stay exact), and
+//! with the central meridian itself given +-1..3 turns outside [-180,180]; in addition the image must
+//! equal that of the canonical presentation (`presentation-differs@..`; merc/webmerc, documented
+//! without wrapping and linear in the raw longitude: easting moves by a·k_0 per radian). The rounding of
+//! the unreduced longitude difference, 8·eps·(|lon| + |lon_0| + 2·pi) rad per point, enters every budget.
 //! A failure is attributed to a parameter group by repeating the same case on reduced
 //! definitions (`attribute`), which keeps the failure keys specific to a defect class.
 
@@ -26,7 +35,7 @@ use geodesy::authoring::{Factors, Jacobian};
 use geodesy::prelude::*;
 use proptest::prelude::*;
 use serde::{Deserialize, Serialize};
-use std::f64::consts::{FRAC_PI_2, PI};
+use std::f64::consts::{FRAC_PI_2, PI, TAU};
 use vcore::geo::*;
 use vcore::guard::guard;
 use vcore::refmath::{great_circle, great_circle_direct, integrate, El};
@@ -367,6 +376,70 @@ struct Case {
     pts: Vec<[F; 2]>,
     /// also compare with the library's own Jacobian/Factors
     libjac: bool,
+    /// how the longitudes (and the central meridian) are presented to the library
+    #[serde(default)]
+    pres: Pres,
+}
+
+/// Presentation of longitudes. A geographic point may be handed to the library with any raw
+/// longitude: as computed (central meridian + difference), reduced to one of the customary
+/// ranges, or a number of whole turns away (unwrapped / accumulated longitudes); a central
+/// meridian may likewise be given outside [-180, 180] degrees.
+#[derive(Clone, Copy, Debug, Default, Serialize, Deserialize, PartialEq)]
+struct Pres {
+    /// 0: the canonical presentation of the other sections (inside [-180, 180], stencil points
+    /// wrapped one by one); 1: as computed; 2: [-180, 180); 3: (-180, 180]; 4: [0, 360)
+    mode: u8,
+    /// whole turns added to every longitude after `mode`
+    turns: i8,
+    /// whole turns (of 360 degrees) added to lon_0 / lonc in the definition text
+    cm_turns: i8,
+}
+
+impl Pres {
+    fn canonical(&self) -> bool {
+        self.mode == 0 && self.turns == 0
+    }
+    fn plain(&self) -> bool {
+        self.canonical() && self.cm_turns == 0
+    }
+    /// whole turns to add to the longitude `lon` (radians)
+    fn turns_for(&self, lon: f64) -> f64 {
+        let m = match self.mode {
+            2 => -((lon + PI) / TAU).floor(),
+            3 => -((lon - PI) / TAU).ceil(),
+            4 => -(lon / TAU).floor(),
+            _ => 0.0,
+        };
+        m + self.turns as f64
+    }
+    fn label(&self) -> String {
+        let m = match self.mode {
+            0 => "canonical",
+            1 => "as-computed",
+            2 => "[-180,180)",
+            3 => "(-180,180]",
+            _ => "[0,360)",
+        };
+        format!("{m}{:+}turns", self.turns)
+    }
+}
+
+/// name of the parameter that holds the central meridian, where the operator has one
+fn cm_param(kind: Kind) -> Option<&'static str> {
+    match kind {
+        Kind::Webmerc | Kind::Utm | Kind::Butm => None,
+        Kind::Omerc => Some("lonc"),
+        _ => Some("lon_0"),
+    }
+}
+
+/// the definition with its central meridian given `cm_turns` whole turns away
+fn with_cm_turns(def: &Def, pres: &Pres) -> Def {
+    match cm_param(def.kind()) {
+        Some(k) if pres.cm_turns != 0 => def.clone().with(k, def.or(k, 0.0) + 360.0 * pres.cm_turns as f64),
+        _ => def.clone(),
+    }
 }
 
 // ---- finite differences -----------------------------------------------------------
@@ -417,6 +490,9 @@ struct Jac {
     hl: f64,
     hp: f64,
     fmax: f64,
+    /// rounding of the longitude difference inside the library beyond the canonical presentation
+    /// (radians, per stencil point; 0 for the canonical presentation)
+    eps_lon: f64,
 }
 
 struct Inst {
@@ -428,9 +504,10 @@ struct Inst {
     sem: Sem,
     /// operator name, with the aspect where it selects a different branch of the formulas (laea, omerc)
     kop: String,
+    pres: Pres,
 }
 
-fn instantiate(def: &Def) -> Result<Inst, Failure> {
+fn instantiate(def: &Def, pres: Pres) -> Result<Inst, Failure> {
     let text = def.text();
     let etext = def.ell.text();
     let ellps = match guard(|| Ellipsoid::named(&etext)) {
@@ -447,7 +524,7 @@ fn instantiate(def: &Def) -> Result<Inst, Failure> {
     };
     let sem = sem(def, &el);
     let kop = if matches!(sem.kind, Kind::Laea | Kind::Omerc) { format!("{}/{}", def.op, sem.aspect) } else { def.op.clone() };
-    Ok(Inst { ctx, op, text, el, ellps, sem, kop })
+    Ok(Inst { ctx, op, text, el, ellps, sem, kop, pres })
 }
 
 impl Inst {
@@ -469,6 +546,31 @@ impl Inst {
             }
         }
         Ok(())
+    }
+
+    /// A single longitude as presented to the library: brought into the range of the presentation
+    /// mode, then moved by whole turns (one rounding of the sum, covered by `eps_lon`).
+    fn present(&self, lon: f64) -> f64 {
+        if self.pres.plain() {
+            lon
+        } else if self.pres.canonical() {
+            vcore::refmath::wrap_pi(lon)
+        } else {
+            lon + self.pres.turns_for(lon) * TAU
+        }
+    }
+
+    /// Rounding budget (radians) of the longitude difference from the central meridian when longitudes
+    /// or the central meridian are whole turns away: the sum lon + n·2·pi (half an ulp), the f64 value
+    /// of 2·pi against the true one (n·2.5e-16), and inside the library the difference lon - lon_0 and
+    /// the shift by pi before the modulo (half an ulp each, of magnitudes up to |lon| + |lon_0| + pi):
+    /// together at most 2·eps·(|lon| + |lon_0| + 2·pi); taken four times as large.
+    fn eps_lon(&self, presented: f64) -> f64 {
+        if self.pres.plain() {
+            0.0
+        } else {
+            8.0 * EPS * (presented.abs() + self.sem.lon_c.abs() + TAU)
+        }
     }
 
     /// One forward evaluation of a single geographic point (radians)
@@ -499,6 +601,22 @@ impl Inst {
         let mut data: Vec<Coor4D> = Vec::with_capacity(pts.len() * 13);
         let mut inputs: Vec<(f64, bool)> = Vec::with_capacity(pts.len());
         for &(lon, lat, hl, hp) in pts {
+            if !self.pres.canonical() {
+                // Presented a whole number n of turns away, all 13 points alike. n·2·pi is rounded to the
+                // lattice of the abscissae (multiples of 2^-36 rad), so that every sum below is exact and the
+                // differences of the abscissae stay exact; the stencil as a whole then sits 2^-37 rad
+                // (0.05 mm) at most beside the point, which no differential claim can see.
+                let c = lon + quant(self.pres.turns_for(lon) * TAU);
+                data.push(Coor4D::raw(c, lat, 0.0, 0.0));
+                for k in [-3.0, -2.0, -1.0, 1.0, 2.0, 3.0] {
+                    data.push(Coor4D::raw(c + k * hl, lat, 0.0, 0.0));
+                }
+                for k in [-3.0, -2.0, -1.0, 1.0, 2.0, 3.0] {
+                    data.push(Coor4D::raw(c, lat + k * hp, 0.0, 0.0));
+                }
+                inputs.push((c, false));
+                continue;
+            }
             let lon_in = if lon.abs() > PI { quant(vcore::refmath::wrap_pi(lon)) } else { lon };
             let mut wrapped = false;
             data.push(Coor4D::raw(lon_in, lat, 0.0, 0.0));
@@ -551,6 +669,7 @@ impl Inst {
                 hl,
                 hp,
                 fmax,
+                eps_lon: self.eps_lon(inputs[i].0.abs() + 3.0 * hl),
             });
         }
         Ok(out)
@@ -585,7 +704,9 @@ fn factors(j: &Jac, el: &El, extra_f: f64) -> Fac {
         cos_t: (j.xl * j.xp + j.yl * j.yp) / (dl * dp),
         det,
         // a wrapped stencil point is displaced by the rounding of 2·pi (some 1e-15 rad)
-        dk: CR * EPS * f / (j.hl * nc) + if j.wrapped { dl / nc * 8.0 * EPS * PI / j.hl } else { 0.0 },
+        // unreduced longitudes: every point of the longitude stencil carries its own rounding of the
+        // longitude difference (weights of the 6th order stencil: 110/60)
+        dk: CR * EPS * f / (j.hl * nc) + if j.wrapped { dl / nc * 8.0 * EPS * PI / j.hl } else { 0.0 } + dl / nc * 2.0 * j.eps_lon / j.hl,
         dh: CR * EPS * f / (j.hp * m),
     }
 }
@@ -751,6 +872,19 @@ const GROSS: f64 = 100.0;
 fn check(case: &Case, rec: &mut Rec) -> CaseResult {
     match run_def(&case.def, case, rec, true) {
         Ok(()) => Ok(()),
+        Err(f) if !case.pres.plain() => {
+            // does the same case hold in the canonical presentation? Then the presentation of the
+            // longitudes is what provokes the failure.
+            let mut scratch = Rec::default();
+            let canon = Case { pres: Pres::default(), ..case.clone() };
+            match run_def(&canon.def, &canon, &mut scratch, false) {
+                Ok(()) => Err(Failure {
+                    key: format!("{}~unreduced-longitude", f.key),
+                    msg: format!("{}\n  presentation of longitudes: {:?}; the same case holds with every longitude and the central meridian inside [-180, 180] deg", f.msg, case.pres),
+                }),
+                Err(_) => Err(attribute(case, f)),
+            }
+        }
         Err(f) => Err(attribute(case, f)),
     }
 }
@@ -789,7 +923,9 @@ fn attribute(case: &Case, f: Failure) -> Failure {
 }
 
 fn run_def(def: &Def, case: &Case, rec: &mut Rec, record: bool) -> CaseResult {
-    let inst = instantiate(def)?;
+    let def_ref = def;
+    let def = &with_cm_turns(def, &case.pres);
+    let inst = instantiate(def, case.pres)?;
     let el = inst.el;
     let s = inst.sem.clone();
     let kind = s.kind;
@@ -811,7 +947,33 @@ fn run_def(def: &Def, case: &Case, rec: &mut Rec, record: bool) -> CaseResult {
         .collect();
     let jacs = inst.jacobians(&abs)?;
     let lcc_n = if kind == Kind::Lcc { lcc_cone_constant(def, &el).abs().max(1e-3) } else { 1.0 };
-    for j in &jacs {
+    // Presentation differential: the same geographic points through the same definition with the central
+    // meridian as written and every longitude inside [-180, 180] (the presentation of the other sections)
+    // on the one hand, and as presented here on the other.
+    //   (reference x, y, reference longitude difference; presented x, y, longitude difference, longitude)
+    let mut diff: Vec<[f64; 7]> = vec![];
+    if !inst.pres.plain() {
+        let ref_inst = instantiate(def_ref, Pres::default())?;
+        let mut dref: Vec<Coor4D> = vec![];
+        let mut dpre: Vec<Coor4D> = vec![];
+        for p in &case.pts {
+            let lon_ref = quant(ref_inst.sem.lon_c + p[0].0);
+            // (not brought back to the lattice of the abscissae after wrapping: that would move the point)
+            let lon_in_ref = if lon_ref.abs() > PI { vcore::refmath::wrap_pi(lon_ref) } else { lon_ref };
+            // as computed from the central meridian as presented, then the presentation of longitudes
+            let base = lon_ref + case.pres.cm_turns as f64 * TAU;
+            let pl = if inst.pres.canonical() { vcore::refmath::wrap_pi(base) } else { base + inst.pres.turns_for(base) * TAU };
+            dref.push(Coor4D::raw(lon_in_ref, quant(p[1].0), 0.0, 0.0));
+            dpre.push(Coor4D::raw(pl, quant(p[1].0), 0.0, 0.0));
+            diff.push([0.0, 0.0, lon_in_ref - ref_inst.sem.lon_c, 0.0, 0.0, pl - s.lon_c, pl]);
+        }
+        ref_inst.fwd(&mut dref, "reference presentation")?;
+        inst.fwd(&mut dpre, "unreduced longitudes")?;
+        for (i, d) in diff.iter_mut().enumerate() {
+            (d[0], d[1], d[3], d[4]) = (dref[i][0], dref[i][1], dpre[i][0], dpre[i][1]);
+        }
+    }
+    for (ji, j) in jacs.iter().enumerate() {
         let dlon = j.lon - s.lon_c;
         if let Some(sm) = seam(kind) {
             if dlon.abs() + 3.0 * j.hl >= sm {
@@ -832,6 +994,39 @@ fn run_def(def: &Def, case: &Case, rec: &mut Rec, record: bool) -> CaseResult {
             fc.k,
             j
         );
+        if let Some(d) = diff.get(ji) {
+            // merc and webmerc are linear in the raw longitude by construction (documented without
+            // wrapping): the easting moves by a·k_0 per radian; every other projection is a function of
+            // the geographic point
+            let linear = if matches!(kind, Kind::Merc | Kind::Webmerc) { el.a * s.k_0 * (d[5] - d[2]) } else { 0.0 };
+            let dl = j.xl.hypot(j.yl);
+            // omerc re-adds lambda_0 (up to 90 degrees from lonc) after normalising and subtracts it again, and forms
+            // u - u_c by cancellation: worst observed 0.49 of the plain budget in 1e6 thorough cases, hence three times it
+            let slack = if kind == Kind::Omerc { 3.0 } else { 1.0 };
+            let tol = slack * (1e-9 * (el.a / 6_378_137.0) + 16.0 * EPS * (j.fmax.max(el.a) + xf + linear.abs()) + 2.0 * dl * inst.eps_lon(d[6]));
+            let e = (d[3] - d[0] - linear).abs().max((d[4] - d[1]).abs());
+            if record {
+                rec.metric(&format!("presentation_err_m@{op}"), e / (el.a / 6_378_137.0));
+                rec.metric(&format!("presentation_err_over_tol@{op}"), e / tol);
+                rec.count(&format!("presentation-differential@{op}"), 1);
+            }
+            vensure!(
+                e.is_finite() && note(e, tol),
+                format!("presentation-differs@{kop}"),
+                "'{text}': the point {:.9} deg from the central meridian at lat {:.9} deg, given as lon = {:.12} deg, maps to ({:.6}, {:.6}); the same point through '{}' with the longitude inside [-180, 180] maps to ({:.6}, {:.6}){}; difference {:.3e} m, tolerance {:.3e} m",
+                d[2].to_degrees(),
+                j.lat.to_degrees(),
+                d[6].to_degrees(),
+                d[3],
+                d[4],
+                def_ref.text(),
+                d[0],
+                d[1],
+                if linear != 0.0 { format!(" (+ a·k_0·(difference of raw longitudes) = {linear:.6} m in x, linear by construction)") } else { String::new() },
+                e,
+                tol
+            );
+        }
         // where the rounding of the differenced coordinates alone exceeds the level at which the
         // identities are judged (1e-8; 1e-7 beyond 80 deg) nothing can be decided: counted, not judged
         let cap: f64 = if j.lat.abs() > 80f64.to_radians() { 1e-7 } else { 1e-8 };
@@ -952,7 +1147,15 @@ fn run_def(def: &Def, case: &Case, rec: &mut Rec, record: bool) -> CaseResult {
         }
         if record {
             rec.class(&aspect);
-            if j.lon_in != j.lon {
+            if !inst.pres.plain() {
+                rec.class(&format!("presented:{}", inst.pres.label()));
+                rec.class(&format!("presented@{op}:{:+}turns", (j.lon_in - j.lon) / TAU));
+                if inst.pres.cm_turns != 0 && cm_param(kind).is_some() {
+                    rec.class(&format!("central-meridian{:+}turns@{op}", inst.pres.cm_turns));
+                }
+                let off = ((j.lon_in - s.lon_c) / TAU).abs();
+                rec.class(if off > 1.5 { "longitude >1.5 turns from the central meridian" } else if off > 0.5 { "longitude 0.5..1.5 turns from the central meridian" } else { "longitude within half a turn of the central meridian" });
+            } else if j.lon_in != j.lon {
                 rec.class(&format!("across-antimeridian@{op}"));
             }
             if j.wrapped {
@@ -971,6 +1174,7 @@ fn run_def(def: &Def, case: &Case, rec: &mut Rec, record: bool) -> CaseResult {
                     def.ell.class(),
                     (dlon.to_degrees() * 2.0).round() as i64,
                     (j.lat.to_degrees() * 2.0).round() as i64,
+                    if inst.pres.plain() { None } else { Some((inst.pres.mode, inst.pres.turns, inst.pres.cm_turns)) },
                 ));
             }
             let band = if j.lat.abs() > 89f64.to_radians() {
@@ -1063,7 +1267,22 @@ fn run_def(def: &Def, case: &Case, rec: &mut Rec, record: bool) -> CaseResult {
                 );
             }
             Claim::Maps { lon, lat, x, y, tol, tag } => {
-                let (gx, gy) = inst.at(*lon, *lat, tag)?;
+                let pl = inst.present(*lon);
+                let (gx, gy) = inst.at(pl, *lat, tag)?;
+                let (mut x, mut tol) = (*x, *tol);
+                if !inst.pres.plain() {
+                    // merc / webmerc: linear in the raw longitude (see above)
+                    if matches!(kind, Kind::Merc | Kind::Webmerc) {
+                        x += el.a * s.k_0 * (pl - lon);
+                        tol += 16.0 * EPS * (x.abs() + el.a * s.k_0 * pl.abs());
+                    }
+                    // rounding of the longitude difference times the local derivative (measured)
+                    let h = 1.0 / 1_048_576.0;
+                    let (ex, ey) = inst.at(pl + h, *lat, tag)?;
+                    let (wx, wy) = inst.at(pl - h, *lat, tag)?;
+                    tol += 2.0 * ((ex - wx).hypot(ey - wy) / (2.0 * h)) * inst.eps_lon(pl);
+                }
+                let (x, tol) = (&x, &tol);
                 let e = (gx - x).abs().max((gy - y).abs());
                 if record {
                     rec.metric(&format!("maps_err_m@{op}:{tag}"), e / (el.a / 6_378_137.0));
@@ -1074,7 +1293,7 @@ fn run_def(def: &Def, case: &Case, rec: &mut Rec, record: bool) -> CaseResult {
                     note(e, *tol),
                     format!("maps@{kop}:{tag}"),
                     "'{text}': (lon {:.12}, lat {:.12}) deg maps to ({:.9}, {:.9}) but {tag} requires ({:.9}, {:.9}); difference {:.3e} m, tolerance {:.3e} m",
-                    lon.to_degrees(),
+                    pl.to_degrees(),
                     lat.to_degrees(),
                     gx,
                     gy,
@@ -1422,7 +1641,23 @@ fn omerc_params() -> impl Strategy<Value = (f64, f64, Option<f64>, bool)> {
 fn case_strategy(names: Vec<String>, npts: usize, libjac_weight: f64) -> impl Strategy<Value = Case> {
     (def_strategy(names), prop::collection::vec((unit(), unit()), 1..=npts), prop::bool::weighted(libjac_weight)).prop_map(|(def, uv, libjac)| {
         let pts = uv.iter().map(|(u, v)| domain_point(&def, *u, *v)).collect();
-        Case { def, pts, libjac }
+        Case { def, pts, libjac, pres: Pres::default() }
+    })
+}
+
+/// every presentation mode x 0, +-1, +-2, +-3 turns x central meridian as written or +-1, +-2, +-3 turns away
+fn pres_strategy() -> impl Strategy<Value = Pres> {
+    (0u8..=4, prop_oneof![1 => Just(0i8), 6 => -3i8..=3], prop_oneof![2 => Just(0i8), 1 => -3i8..=3]).prop_map(|(mode, turns, cm_turns)| {
+        // mode 0 (stencil points wrapped one by one) is the presentation of the other sections: it has no turns
+        let mode = if mode == 0 && turns != 0 { 1 } else { mode };
+        Pres { mode, turns, cm_turns }
+    })
+}
+
+fn presented_case_strategy(names: Vec<String>, npts: usize, libjac_weight: f64) -> impl Strategy<Value = Case> {
+    (case_strategy(names, npts, libjac_weight), pres_strategy()).prop_map(|(mut c, pres)| {
+        c.pres = pres;
+        c
     })
 }
 
@@ -1586,6 +1821,7 @@ fn selftest() {
         hl: h,
         hp: h,
         fmax: 1.0,
+        eps_lon: 0.0,
     };
     let fc = factors(&j, &e, 0.0);
     assert!((fc.h - fc.k).abs() / fc.k < 1e-11 && fc.cos_t.abs() < 1e-11 && fc.det > 0.0, "closed form TM not conformal under the harness: {fc:?}");
@@ -1600,6 +1836,7 @@ fn main() {
     run.assume("omerc: false origin at the projection centre is claimed for variant B and the Laborde form only (variant A places it at the natural origin); lcc: origin claim needs an explicit lat_0 or a single standard parallel");
     run.assume("domains: |lat| <= 89.9; tmerc/utm within 60 deg and btmerc/butm within 3 deg of the central meridian; laea within 170 deg of the centre; omerc/somerc within 45 deg of the centre; no finite-difference stencil across the seam of lcc/somerc (antimeridian of the centre) or within 92 deg of the antimeridian of the omerc centre (seam of the aposphere)");
     run.assume("longitudes are handed to the library inside [-180, 180] deg (a domain around a central meridian near the antimeridian straddles +-180); the points of the longitude stencil are wrapped one by one as well, except for merc/webmerc, which are linear in the raw longitude and documented without wrapping: there the stencil continues across +-180");
+    run.assume("sections presentation*: a geographic point may be handed over with any raw longitude (the shared normalisation is documented for arbitrary angles; tmerc, utm and laea are periodic through sin/cos); merc and webmerc are documented without wrapping and are linear in the raw longitude: for them the easting is required to move by a·k_0 per radian of raw longitude, all differential claims unchanged; a central meridian outside [-180, 180] deg is accepted by every operator that has one (nothing in the documentation restricts it)");
     run.assume("omerc: the meridian through the centre has the grid bearing gamma_c - alpha (u axis tangent to the initial line of azimuth alpha; IOGP 373-7-2); laea: unit scale in all directions at the centre (azimuthal)");
 
     let names = named_ellipsoids();
@@ -1622,7 +1859,7 @@ fn main() {
                 let r = i / (ne * n_asp);
                 let def = canonical_aspects(e)[a].clone();
                 let pts = cols.iter().map(|u| domain_point(&def, *u, rows[r])).collect();
-                Case { def, pts, libjac: r % 6 == 2 }
+                Case { def, pts, libjac: r % 6 == 2, pres: Pres::default() }
             },
             check,
         );
@@ -1641,5 +1878,55 @@ fn main() {
         );
     }
 
-    run.finish("finite-difference Jacobians of the forward projections compared with the defining differential identities (conformal: h=k, orthogonality, orientation; laea: unit areal scale; webmerc: closed form) and with the stated lines of true scale, central-meridian northing and origins, over all aspects, all built-in and random ellipsoids, lattices and random points of the documented domains");
+    // 3. presentation of longitudes: lattice of every aspect x every presentation
+    {
+        let e = Ell::Named("GRS80".into());
+        let e2 = Ell::Custom { a: F(6_378_137.0), rf: F(150.0) };
+        let n_asp = canonical_aspects(&e).len();
+        // (mode, turns): every range x every turn count; then the central meridian turns
+        let mut pres: Vec<Pres> = vec![];
+        for cm_turns in [0i8, -3, -2, -1, 1, 2, 3] {
+            for mode in 1u8..=4 {
+                for turns in -3i8..=3 {
+                    pres.push(Pres { mode, turns, cm_turns });
+                }
+            }
+            if cm_turns != 0 {
+                pres.push(Pres { mode: 0, turns: 0, cm_turns });
+            }
+        }
+        let rows = lattice_axis(if thorough { 13 } else { 3 });
+        let cols = lattice_axis(if thorough { 13 } else { 5 });
+        let (np, nr) = (pres.len(), rows.len());
+        run.sweep(
+            "presentation-lattice",
+            "every aspect/parameterisation class (canonical parameter values, GRS80 or a = 6378137, 1/f = 150 in turn) x every presentation of the longitudes (as computed from the central meridian, reduced to [-180,180), (-180,180] or [0,360), each moved by 0, +-1, +-2, +-3 whole turns, all 13 stencil points alike with exact abscissae) x the central meridian as written or +-1, +-2, +-3 turns away (where the operator has one) x a coarse lattice over the domain; all claims of the other sections re-judged on the presented stencils (origins and central-meridian northings at the presented centre), plus the presentation differential: same image as through the canonical presentation (merc/webmerc: easting moves by a·k_0 per radian of raw longitude, linear by construction); non-trivial as in the lattice",
+            n_asp * np * nr,
+            move |i| {
+                let a = i % n_asp;
+                let p = (i / n_asp) % np;
+                let r = i / (n_asp * np);
+                let ell = if (a + p + r) % 2 == 0 { &e } else { &e2 };
+                let def = canonical_aspects(ell)[a].clone();
+                let pts = cols.iter().map(|u| domain_point(&def, *u, rows[r])).collect();
+                Case { def, pts, libjac: r == 1 && p % 5 == 0, pres: pres[p] }
+            },
+            check,
+        );
+    }
+
+    // 4. presentation of longitudes: random parameterisations
+    {
+        let n = run.scale(25_000, 1_000_000);
+        let nm = names.clone();
+        run.section(
+            "presentation",
+            "as section random (random parameter sets of every projection x built-in or random ellipsoid x up to 6 points of the domain), each under a random presentation of the longitudes: range mode (canonical, as computed, [-180,180), (-180,180], [0,360)) x 0, +-1, +-2, +-3 whole turns x central meridian as written or +-1, +-2, +-3 turns away; conformality / equal area / closed form, lines of true scale, central-meridian northing, origins and the library's Jacobian re-judged as presented, plus the presentation differential against the canonical presentation",
+            n,
+            move || presented_case_strategy(nm.clone(), 6, 0.15),
+            check,
+        );
+    }
+
+    run.finish("finite-difference Jacobians of the forward projections compared with the defining differential identities (conformal: h=k, orthogonality, orientation; laea: unit areal scale; webmerc: closed form) and with the stated lines of true scale, central-meridian northing and origins, over all aspects, all built-in and random ellipsoids, lattices and random points of the documented domains; the same claims and the identity of the image for the points presented with unreduced longitudes (other ranges, up to +-3 whole turns away, central meridian given outside [-180, 180])");
 }
